@@ -76,6 +76,7 @@ type run struct {
 	symbolicPath bool
 	events       []string
 
+	stack    []*ssa.Function
 	onceDone map[*value]bool
 	syncIDs  map[*value]int
 	syncLog  []syncEv
@@ -509,6 +510,18 @@ func (e *engine) explore(entry *ssa.Function, args []value, qlog func(int) *stri
 	return res
 }
 
+func (r *run) stackString() string {
+	var sb strings.Builder
+	sb.WriteString(" [stack:")
+	n := 0
+	for i := len(r.stack) - 1; i >= 0 && n < 8; i-- {
+		sb.WriteString(" " + r.stack[i].String())
+		n++
+	}
+	sb.WriteString("]")
+	return sb.String()
+}
+
 // runPath executes one path.
 func (e *engine) runPath(sol *Solver, entry *ssa.Function, args []value, prefix []choice) (r *run) {
 	r = &run{
@@ -534,7 +547,7 @@ func (e *engine) runPath(sol *Solver, entry *ssa.Function, args []value, prefix 
 			switch p := p.(type) {
 			case pathEnd:
 			case engineError:
-				r.events = append(r.events, "INCONCLUSIVE path: "+p.msg)
+				r.events = append(r.events, "INCONCLUSIVE path: "+p.msg+r.stackString())
 			case targetPanic:
 				r.violation("crash", "no-crash", "uncaught panic: "+p.String())
 			default:
